@@ -17,6 +17,61 @@ CLAIMED = {
          "Json module and the 60-line projection in harness/src/checks/wf.rs are trusted.",
          "TLA+ definitions (Grammar.tla) evaluated by TLC over an exhaustively enumerated grammar machine; vectors replayed against the real functions",
          "DESIGN.md §6 C11"),
+ "C05": ("model_checking",
+         "TLC enumerates every well-formed left-recursion-free grammar of the bounded universe plus guided random walks over a wider "
+         "one, computes FIRST_k/FOLLOW_k/lookahead sets as least fixpoints (LLAnalysis.tla), checks that decidability is monotone in k "
+         "and that FIRST_k is the k-truncation of the bounded language, and emits StrongLL(G,K), MinK per non-terminal and the "
+         "conflicting non-terminals for K=1..3. The harness compares calculate_lookahead_dfas, decidable and explain_conflicts.",
+         "Bounded universe + sampled wide universe; K<=3; MaxKExceeded carries no name, so naming is observed via decidable/explain_conflicts.",
+         "TLA+ least-fixpoint definitions evaluated by TLC over an enumerated grammar machine; vectors replayed against the real analysis",
+         "DESIGN.md §6 C05"),
+ "C06": ("model_checking",
+         "Same universe as C05. TLC additionally model-checks Solvers.tla: the seeded Jacobi chain (FIRST) and seeded Gauss-Seidel chain "
+         "(FOLLOW) as coded reach the least fixpoints for every accepted grammar, and the CacheOrders machine enumerates request orders. "
+         "The harness replays request orders on one FirstCache/FollowCache pair and compares every answer (per non-terminal and production) "
+         "with the definition.",
+         "k<=3; request orders of length <=3 (quick) / <=4 (thorough) sampled per grammar by hash plus ascending/descending; reading the "
+         "cached FOLLOW sets needs the cfg(parol_verif) accessor.",
+         "TLC model checking of the solver chains + cache machine; TLC-generated vectors and request orders replayed on the real caches",
+         "DESIGN.md §6 C06"),
+ "C07": ("model_checking",
+         "For every accepted grammar of the C05 universe the expected language of each lookahead automaton is TLC's LaSet(G,k,p); the "
+         "harness walks the unminimised LookaheadDFA and the compiled/minimised automaton of the export model on every string up to "
+         "length k+1 and compares prediction per string, plus sortedness/density/k.",
+         "Automata are read through their public fields / the serialised export model; strings up to k+1 over the grammar's terminals and $.",
+         "TLC-computed lookahead sets as oracle; exhaustive walk of both automata per grammar",
+         "DESIGN.md §6 C07"),
+ "C01": ("model_checking",
+         "GEN: TLC emits each grammar with its bounded language; parol's whole pipeline builds the parser, the real LLKParser runs on every "
+         "token string up to length n over terminals + a foreign token with recovery on and off; Ok iff member. TV: recorded runs are "
+         "validated step by step by LLParser.tla (a successful run is a leftmost derivation of the whole input over parol's transformed "
+         "grammar; rejected runs may not end in success and are checked against the bounded language of the transformed grammar).",
+         "n=4 (quick) / 5 (thorough), K<=3; tables are read from the generated source by the harness (syn + scnr2_generate) instead of rustc.",
+         "TLC-generated language vectors replayed through the full pipeline + TLC trace validation of the real parser's call sequence",
+         "DESIGN.md §6 C01"),
+ "C02": ("model_checking",
+         "Trace validation: every open/tok/close/action event of recorded LL runs must be an enabled Predict/Match/EndProd step of the PDA "
+         "over parol's transformed grammar; EndProd checks the action's production, its child count and that the children are exactly the "
+         "top of the tree stack (tokens identified by type and offset); at success the tree stack is the start symbol and the input is consumed.",
+         "A sample of inputs per grammar (sentences and non-sentences) x 3 texts x 6 option sets; rejected runs are only required not to "
+         "call actions after the first error and not to end in success.",
+         "TLC trace validation (LLParser.tla) of the real parser's tree-builder and user-action calls",
+         "DESIGN.md §6 C02"),
+ "C08": ("model_checking",
+         "The real LookaheadDFA::eval is called on a real TokenStream for every window of up to k+1 tokens (terminals and a foreign token) "
+         "for every non-terminal of every accepted grammar; the `eval` events are validated by LLParser.tla against the lookahead sets of "
+         "parol's transformed grammar (no guess, error iff no lookahead string matches, the matching production otherwise). The same guard "
+         "is applied to every expansion of recorded parser runs.",
+         "windows up to k+1 tokens, k<=3; lookahead sets recomputed by TLC from the grammar encoded in the generated tables.",
+         "TLC trace validation of eval() results against TLA+ lookahead sets, all windows enumerated",
+         "DESIGN.md §6 C08"),
+ "C20": ("model_checking",
+         "Trace validation: for each sampled input the reference run (untrimmed, recovery on, no limit) is validated as a PDA run; runs with "
+         "trimming, recovery off and depth limits 0..3/64 must perform exactly the reference's action sequence and verdict, or fail with "
+         "MaxParsingDepthExceeded exactly when the spec's depth counter (non-push productions) exceeds the limit.",
+         "LL side only so far (LR runs are added with C03); limits that are hit after a syntax error are not tracked.",
+         "TLC trace validation with a reference-run comparison (LLParser.tla)",
+         "DESIGN.md §6 C20"),
 }
 
 NOT_YET = "check not built yet in this round (see DESIGN.md §11.2 build order); will be claimed once its quick check passes on the unchanged tree"
